@@ -24,7 +24,11 @@ Definition rc_of_str (s : str) : rc :=
   if str_eqb s (lit "ok") then RcOk else if str_eqb s (lit "error") then RcError
   else if str_eqb s (lit "return") then RcReturn else if str_eqb s (lit "break") then RcBreak
   else if str_eqb s (lit "continue") then RcContinue
-  else match get_int s with Some z => RcOther z | None => RcOk end.
+  else match get_int s with
+       | Some z => if Z.eqb z 0 then RcOk else if Z.eqb z 1 then RcError else if Z.eqb z 2 then RcReturn
+                   else if Z.eqb z 3 then RcBreak else if Z.eqb z 4 then RcContinue else RcOther z
+       | None => RcOk
+       end.
 
 Inductive outc :=
 | ONormal (v : str)
